@@ -253,6 +253,15 @@ func (r *Run) Finish() {
 	}
 	cov["samples"] = r.samples
 	cov["exhaustive"] = r.exhaustive
+	if !r.exhaustive {
+		// a bound is only "completed" when nothing was cut short: a capped run reports it as attempted
+		for k, v := range cov {
+			if strings.HasSuffix(k, "bound_completed") {
+				delete(cov, k)
+				cov[strings.TrimSuffix(k, "completed")+"attempted_but_capped"] = v
+			}
+		}
+	}
 	if len(r.capsHit) > 0 {
 		cov["caps_hit"] = r.capsHit
 	}
